@@ -398,6 +398,31 @@ def run(ctx):
         ecases = singles + random.Random(ctx.seed).sample(pairs, 10 if q else 400)
         inp["e2e"] = {"cases": ecases, "seed": ctx.seed}
     ctx.exhaustive = True
+    ctx.rule = ("GEN, four tables written by TLC with the result the documents require, every row replayed into the real code.  resolve: every "
+                "argument of <= MaxLen tokens over {a, U+00E9, tahoe, URI, ':', '/', ' ', '.'} (and <= MaxLen - 1 behind a whole directory cap, "
+                "MaxLen + 1 over {a : / .} alone and behind a cap) x 10 combinations of alias table {empty, tahoe only, tahoe + a + a\u00e9(read-only "
+                "cap)} x default alias {tahoe, none} x {Unix, Windows}; non-trivial = anything but a plain path below the default alias.  "
+                "aliasfile: every private/aliases of <= MaxLines lines over 9 line shapes x final newline x root_dir.cap {absent, empty, cap}, and "
+                "from the files of <= OpLines lines every sequence of <= MaxOps add-alias / create-alias / list-aliases operations (quick: later "
+                "operations from a set of 8).  commands: ls / get / unlink / mkdir / put x every argument of <= ArgLen tokens (+ 12 longer shapes; "
+                "the shorter ones also with the empty table and with the request answered 500 / 404), mkdir / put flags, mv / ln x 10 sources x "
+                "every destination of <= DestLen tokens (+ 8 longer; shorter ones with the k-th request failing, read-only sources, empty "
+                "table); non-trivial = a request below a root or a failing answer.  e2e: from the world tahoe:{\u00e9, a/, a/\u00e9} a:{URI/} every "
+                "command of a universe of ~70 documented / boundary command lines and a seeded sample of pairs, against a real gateway.  "
+                "Inputs the documents do not decide (empty path components, Windows one-character non-letters, mkdir / put onto a root, "
+                "moving a root) are replayed and judged for `no crash` only.")
+    ctx.assumptions += [
+        "TLC and the CommunityModules (Json, IOUtils, SequencesExt)",
+        "the token table of harness/cli_alias_lib.py (a -> 'a', e -> U+00E9, t -> 'tahoe', U -> 'URI', K -> one fixed directory write-cap, M -> one "
+        "fixed mutable-file write-cap) and its fixed cap texts for the cap ids of the Spec",
+        "commands are run in process: the real usage.Options class of scripts/cli.py with parent = {quiet, node-directory}, then cli.dispatch "
+        "(scripts/runner.py cannot be imported here); Windows = common.pretend_platform_uses_lettercolon (the module's own test hook)",
+        "commands leg: allmydata.scripts.common_http.do_http (and the name each tahoe_*.py imported) replaced by a recorder; the answers are "
+        "canned (200 / 500 / 404, a filenode JSON for ?t=json).  reads (GET) are compared as a set, changing requests as a sequence",
+        "e2e leg: do_http forwards into harness/webgrid.py (real Root / WebishServer / _Client / 2 storage servers, k=1 n=2); the web API "
+        "semantics of GenCliE2E.tla cover only what the universe needs (files are immutable, no read-only directories)",
+        "exit statuses are judged as zero / not zero; messages are not judged",
+    ]
 
     if os.environ.get("X_CLI_SAVE_INPUT"):
         with open(os.environ["X_CLI_SAVE_INPUT"], "w") as f:
